@@ -262,6 +262,12 @@ def parts(tier):
                     for s0 in D.half_grid(0, 4):
                         for d in (0.5, 2.0):
                             yield (tiers, 0.0, 4.0, s0, d)
+        # textgrids with no tier at all / a single tier
+        for tiers in ((), (("P", "p", D.labelled_points((1.0, 3.0))),), (("I", "a", D.labelled(((0.0, 1.0), (2.0, 4.0)))),),
+                      (("P", "p", ()),), (("I", "a", ()),)):
+            for s0 in D.half_grid(0, 4):
+                for d in (0.5, 2.0):
+                    yield (tiers, 0.0, 4.0, s0, d)
         # tiers whose own spans are narrower than the textgrid's, in both tier orders (s may lie beyond a short tier's end)
         short_sets = D.interval_sets((0.0, 1.0, 2.0), 2)
         for s1 in short_sets:
